@@ -330,12 +330,16 @@ func TestOrchestrator(t *testing.T) {
 		if before >= 2 {
 			c.Concurrent = rapid.IntRange(0, 2).Draw(t, "concurrentAdds") == 0
 		}
-		for i := 0; i < reps; i++ {
+		n0 := reps
+		if c.Concurrent {
+			n0 = reps * 8 // the window of the racing first Adds is narrow
+		}
+		for i := 0; i < n0; i++ {
 			if k, why := runOrch(c); why != "" {
 				vkit.Fail(t, tOrch, "C11:orchestrator/"+k, *c, "%s (repetition %d)", why, i)
 			}
 		}
-		vkit.CaseN(tOrch, vkit.Hash(*c), reps, n >= 2 && (nonOK || late), []string{fmt.Sprintf("members:%d", n), fmt.Sprintf("late-add:%v", late), fmt.Sprintf("concurrent-first-adds:%v", c.Concurrent)}, func() any { return *c })
+		vkit.CaseN(tOrch, vkit.Hash(*c), n0, n >= 2 && (nonOK || late), []string{fmt.Sprintf("members:%d", n), fmt.Sprintf("late-add:%v", late), fmt.Sprintf("concurrent-first-adds:%v", c.Concurrent)}, func() any { return *c })
 	})
 }
 
